@@ -26,7 +26,10 @@ func vhC19Clone() {
 		for j := range fam {
 			before[j] = fam[j].String()
 		}
-		switch verifChoose("op", 5) {
+		switch verifChoose("op", 6) {
+		case 5:
+			// reusing a message as the receiver of UnmarshalText must not disturb its clones
+			_ = fam[i].UnmarshalText([]byte("data: z\n: c\n\n"))
 		case 0:
 			fam[i].AppendData(verifNondetString("data", verifParam("S", 2)))
 		case 1:
